@@ -196,6 +196,21 @@ def atomicity(rep, u, utp):
             ok = size is not None and size % pkt["size"] == 0 and size >= pkt["size"]
             why = "read size %s, packet %s" % (size, pkt["size"])
     (rep.proved if ok else rep.violated)("R-CFGX", fr, "read-multiple-of-packet", "the receive buffer is a whole number of packets", why)
+    # the batch read from the pipe is dispatched packet by packet with callbacks in between: the buffer must belong to the
+    # reading thread (a local array).  The virtual thread's queue is drained by every worker; a buffer kept in the queue or
+    # any other shared object is overwritten by the next reader while the first one is still inside a callback
+    for pos, root, n, ps in fr.nodes():
+        if n.get("k") == "call" and n.get("fn") == "read":
+            b = core.strip_casts(n["args"][1])
+            while b.get("k") in ("un", "sub") and b.get("k") != "ref":
+                b = core.strip_casts(b["e"] if b.get("k") == "un" else b["b"])
+            private = b.get("k") == "ref" and b.get("dk") == "local" and fr.unit.type(b["t"])["k"] == "arr"
+            desc = "the buffer a batch of packets is read into belongs to the reading thread (a local array of %s)" % fr.name
+            if private:
+                rep.proved("R-OWN", fr, "receive-buffer-private", desc, "local array '%s'" % b["n"])
+            else:
+                rep.violated("R-OWN", fr, "receive-buffer-private", desc, "read() fills %s, which outlives the call and is shared by every thread that drains "
+                             "the same queue: a second reader overwrites packets the first has not dispatched yet" % key(core.strip_casts(n["args"][1]))[:60])
 
 
 def _always_has(e, bit):
